@@ -740,6 +740,11 @@ func evalIterateStmt(vm *r.VM, node *syntax.IterateStmt) error {
 
 // // execute expressions
 func evalExpression(vm *r.VM, expr syntax.Expression) (r.Element, error) {
+	// bound the depth of calls and nested expressions (see r.MaxEvalDepth)
+	defer vm.LeaveEval()
+	if !vm.EnterEval() {
+		return nil, zerr.EvalNestTooDeep(r.MaxEvalDepth)
+	}
 	switch e := expr.(type) {
 	case *syntax.VarAssignExpr:
 		return evalVarAssignExpr(vm, e)
